@@ -743,7 +743,10 @@ def reference(src_or_fdef, funs=None, param_values=None):
         return it, flatten_val(it, rv, rett)
 
     it, _ = run(64)
-    B = max(8, it.maxhi.bit_length() + 3)
+    def maxw(t):
+        return max(maxw(x) for x in t[1]) if t[0] == "tuple" else width(t)
+
+    B = max(8, it.maxhi.bit_length() + 3, maxw(rett) + 3, *[maxw(t) + 3 for t in argt] or [0])
     B = min(B, 64)
     it, want = run(B)
     return dict(args=[(a.arg, t) for a, t in zip(fdef.args.args, argt)], argbits=argbits, ret_type=rett, retbits=bit_names(rett, "_ret"), want=want, undef=it.undef, B=B)
